@@ -197,7 +197,9 @@ class Parser(object):
                      | ID plain_string
         """
 
-        p[0] = str(p[1]) + p[2]
+        # Take the leading piece as it is written in the source (including the blanks that follow it and the
+        # exact spelling of a number such as 007), rather than re-printing the token value
+        p[0] = p.lexer.lexdata[p.lexpos(1) : p.lexpos(2)] + p[2]
 
     def p_permissive_plain_string(self, p):
         """
@@ -211,7 +213,7 @@ class Parser(object):
         permissive_plain_string : permissive_plain_string COLON permissive_plain_string
         """
 
-        p[0] = p[1] + ":" + p[3]
+        p[0] = p.lexer.lexdata[p.lexpos(1) : p.lexpos(3)] + p[3]
 
     def p_number(self, p):
         """
